@@ -63,6 +63,15 @@ def run(ctx):
             ctx.finding(key, "record rejected by PWire clauses %s" % clauses, r)
     if hfail and not ctx.findings:
         raise vf.Inconclusive("harness sanity clause failed: %s on %s" % (hfail[0][0], json.dumps(hfail[0][1])[:400]))
+    # 4. streams of many frames written by one real writer, read back by one real reader under several chunkings,
+    #    every returned frame inspected after the whole stream has been read (judged by the reader monitor)
+    from checks import _stream
+    trs = ctx.path("c01s.ndjson")
+    ctx.run_mvh(["c01s", "-out", trs, "-seed", ctx.seed, "-tier", ctx.tier])
+    srecs = _stream.validate_streams(ctx, trs, clause_filter=lambda c: c in {
+        "no_panic", "frame_matches_consumed_bytes", "clean_stream_yields_every_frame", "independent_of_chunking", "result_kind"})
+    total += len(srecs)
+    kinds["STREAM"] = len(srecs)
     recs0 = vf.read_ndjson(parts[0][0])
     for r in recs0[:2] + recs0[-1:]:
         ctx.sample(r)
@@ -72,7 +81,7 @@ def run(ctx):
     ctx.cov["spec_vectors"] = nvec
     ctx.cov["rule"] = ("one record per real frame.Writer.Write / frame.Reader.Read call on generated frames (every header "
                        "byte value one at a time, id bits and boundaries, payload lengths 0..255 x 4 content classes, every "
-                       "timestamp/signature bit, random), decoded messages of the dialect 'all' encoded by the writer (40 types quick, all thorough) plus TLC-computed vectors; distinct = (record kind, version, signed, "
+                       "timestamp/signature bit, random), decoded messages of the dialect 'all' encoded by the writer (40 types quick, all thorough) plus TLC-computed vectors; streams of 3..12 frames written by one writer and read back by one reader under 5 chunkings, frames inspected after the whole stream was read; distinct = (record kind, version, signed, "
                        "payload length, id>255, dialect mode) classes")
     ctx.assumptions += ["MavFrame.tla transcribes the MAVLink serialization document correctly (checked lossless/prefix-free by MC_Frame)",
                         "TLC evaluates the operators correctly"]
